@@ -108,8 +108,17 @@ class StepThread:
         self.breaker.parked.acquire()
     def is_alive(self): return self.t.is_alive()
 
-def _mk_thread(target=None):
-    return StepThread(target) if USE_WORKER else FakeThread(target)
+def _mk_thread(group=None, target=None, name=None, args=(), kwargs=None, daemon=None):
+    # the signature of threading.Thread: whatever form of the constructor call the code uses is accepted
+    if args or kwargs:
+        import functools
+        target = functools.partial(target, *args, **(kwargs or {}))
+        target.__self__ = target.func.__self__
+    t = StepThread(target) if USE_WORKER else FakeThread(target)
+    t.name = name
+    if daemon is not None:
+        t.daemon = daemon
+    return t
 
 def _mk_event():
     return StepEvent() if USE_WORKER else threading.Event()
